@@ -49,12 +49,14 @@ fn tok_diff(a: &Obs, b: &Obs) -> Option<&'static str> {
 }
 
 fn obs_diff(real: &Obs, model: &Obs) -> Option<String> {
+    if real.names != model.names {
+        return Some("names".into());
+    }
     if let Some(d) = tok_diff(real, model) {
         return Some(d.into());
     }
     for (n, x, y) in [
         ("sources", json!(real.sources), json!(model.sources)),
-        ("names", json!(real.names), json!(model.names)),
         ("contents", json!(real.contents), json!(model.contents)),
         ("file", json!(real.file), json!(model.file)),
         ("source-root", json!(real.root), json!(model.root)),
@@ -130,7 +132,7 @@ fn check_doc(doc: &[u8], kind: Kind, model: Option<&Obs>, tag: &str) -> Option<(
 
 const KINDS: u64 = 4; // empty, 1-field, 4-field, 5-field
 
-fn l1_lines(structure: &[Vec<usize>], pattern: usize) -> Vec<Vec<AbsSeg>> {
+pub fn l1_lines(structure: &[Vec<usize>], pattern: usize) -> Vec<Vec<AbsSeg>> {
     let mut i = 0i128;
     let mut out = vec![];
     for line in structure {
@@ -144,6 +146,8 @@ fn l1_lines(structure: &[Vec<usize>], pattern: usize) -> Vec<Vec<AbsSeg>> {
             let (gc, s, ol, oc, n) = match pattern {
                 0 => (3 * j, i % 3, i, 2 * i, i % 3),
                 1 => (40 - 7 * j, 2 - i % 3, 20 - i, (i % 2) * 50, (2 * i) % 3),
+                // zig-zag columns: non-adjacent segments return to the same column
+                3 => (j % 2, i % 3, i, 2 * i, i % 3),
                 _ => (5, 1, 7, 7, 2),
             };
             l.push(Some((gc, if kind >= 2 { Some((s, ol, oc, if kind == 3 { Some(n) } else { None })) } else { None })));
@@ -154,7 +158,7 @@ fn l1_lines(structure: &[Vec<usize>], pattern: usize) -> Vec<Vec<AbsSeg>> {
     out
 }
 
-fn l1_structure(mut k: u64, max_lines: usize, max_slots: usize) -> Vec<Vec<usize>> {
+pub fn l1_structure(mut k: u64, max_lines: usize, max_slots: usize) -> Vec<Vec<usize>> {
     let per_line = n_seq_upto(KINDS, max_slots);
     for nl in 1..=max_lines {
         let c = per_line.pow(nl as u32);
@@ -171,12 +175,12 @@ fn l1_structure(mut k: u64, max_lines: usize, max_slots: usize) -> Vec<Vec<usize
     panic!("structure index out of range")
 }
 
-fn l1_count(max_lines: usize, max_slots: usize) -> u64 {
+pub fn l1_count(max_lines: usize, max_slots: usize) -> u64 {
     let per_line = n_seq_upto(KINDS, max_slots);
     (1..=max_lines).map(|nl| per_line.pow(nl as u32)).sum()
 }
 
-fn doc_of(lines: &[Vec<AbsSeg>], sources: &[&str], names: &[&str]) -> (Vec<u8>, Obs) {
+pub fn doc_of(lines: &[Vec<AbsSeg>], sources: &[&str], names: &[&str]) -> (Vec<u8>, Obs) {
     let mappings = write_raw_mappings(&to_raw_lines(lines));
     let doc = format!("{{\"version\":3,\"sources\":{},\"names\":{},\"mappings\":{}}}", json!(sources), json!(names), jstr(&mappings));
     let m = RMap {
@@ -319,13 +323,13 @@ fn check_v(which: usize, k: u64) -> Option<Viol> {
         }
         1 => {
             // names of several JSON types
-            let vals: [(&str, &str); 6] = [("\"s\"", "s"), ("42", "42"), ("-7", "-7"), ("1.5", "1.5"), ("0", "0"), ("\"\"", "")];
-            let pick = seq_upto_unrank(6, 2, k);
+            let vals: [(&str, &str); 8] = [("\"s\"", "s"), ("42", "42"), ("-7", "-7"), ("1.5", "1.5"), ("0", "0"), ("\"\"", ""), ("18446744073709551615", "18446744073709551615"), ("18446744073709551616", "18446744073709551616")];
+            let pick = seq_upto_unrank(8, 2, k);
             let names_json = format!("[{}]", pick.iter().map(|&i| vals[i].0).collect::<Vec<_>>().join(","));
             let toks: Vec<RTok> = (0..pick.len()).map(|i| RTok::new(0, i as u32, Some((0, 0, 0, Some(i as u32))))).collect();
             let mappings = if toks.is_empty() { "AAAA".to_string() } else { rv3_write_mappings(&toks) };
             let doc = format!("{{\"version\":3,\"sources\":[\"a\"],\"names\":{names_json},\"mappings\":{}}}", jstr(&mappings));
-            (doc, RMap { sources: vec!["a".into()], names: pick.iter().map(|&i| vals[i].1.to_string()).collect(), tokens: if toks.is_empty() { vec![RTok::new(0, 0, Some((0, 0, 0, None)))] } else { toks }, ..Default::default() }, "numeric-name")
+            (doc, RMap { sources: vec!["a".into()], names: pick.iter().map(|&i| vals[i].1.to_string()).collect(), tokens: if toks.is_empty() { vec![RTok::new(0, 0, Some((0, 0, 0, None)))] } else { toks }, ..Default::default() }, if pick.contains(&7) { "numeric-name-beyond-64-bit" } else { "numeric-name" })
         }
         2 => {
             // debug_id x debugId, both orders
@@ -364,7 +368,7 @@ fn check_v(which: usize, k: u64) -> Option<Viol> {
 fn v_count(which: usize) -> u64 {
     match which {
         0 => n_seq_upto(4, 3) * root_pool().len() as u64,
-        1 => n_seq_upto(6, 2),
+        1 => n_seq_upto(8, 2),
         2 => 18,
         _ => (root_pool().len() * string_pool().len()) as u64,
     }
@@ -398,16 +402,16 @@ pub fn run(run: &mut Run) -> Finish {
     let configs: Vec<(usize, usize)> = tier.pick(vec![(3, 3)], vec![(3, 3), (4, 2), (2, 4), (5, 1), (3, 4)]);
     for (ci, &(ml, ms)) in configs.iter().enumerate() {
         let n1 = l1_count(ml, ms);
-        run.par_slice(&format!("L1 structure: <= {ml} lines x <= {ms} segment slots, each slot in {{empty, 1-field, 4-field, 5-field}}, 3 value patterns (ascending / descending-unsorted / constant-duplicates)"), 10 + ci as u64, n1 * 3, |idx, l| {
+        run.par_slice(&format!("L1 structure: <= {ml} lines x <= {ms} segment slots, each slot in {{empty, 1-field, 4-field, 5-field}}, 4 value patterns (ascending / descending-unsorted / constant-duplicates / zig-zag columns)"), 10 + ci as u64, n1 * 4, |idx, l| {
             let k = idx & ((1 << 40) - 1);
-            let st = l1_structure(k / 3, ml, ms);
-            let lines = l1_lines(&st, (k % 3) as usize);
-            if let Some(v) = check_lines(&lines, ["ascending", "descending", "constant"][(k % 3) as usize]) {
+            let st = l1_structure(k / 4, ml, ms);
+            let lines = l1_lines(&st, (k % 4) as usize);
+            if let Some(v) = check_lines(&lines, ["ascending", "descending", "constant", "zigzag"][(k % 4) as usize]) {
                 l.violation(idx, v);
             }
             let ntok = st.iter().flatten().filter(|&&x| x > 0).count();
             // class: per line the number of slots of each kind (not their order), and the value pattern
-            l.case(ntok > 0, h64(&(st.iter().map(|l| (0..4).map(|kind| l.iter().filter(|&&k| k == kind).count()).collect::<Vec<_>>()).collect::<Vec<_>>(), k % 3)));
+            l.case(ntok > 0, h64(&(st.iter().map(|l| (0..4).map(|kind| l.iter().filter(|&&k| k == kind).count()).collect::<Vec<_>>()).collect::<Vec<_>>(), k % 4)));
             if l.wants_sample(idx) {
                 l.sample(idx, json!({"slice": "L1", "document": String::from_utf8_lossy(&doc_of(&lines, &["a", "b", "c"], &["x", "y", "z"]).0)}));
             }
@@ -466,7 +470,7 @@ pub fn run(run: &mut Run) -> Finish {
     // V
     for which in 0..4usize {
         let n = v_count(which);
-        run.par_slice(["V1: source lists with null entries x root pool", "V2: name lists over {string, 42, -7, 1.5, 0, \"\"}", "V3: debug_id x debugId in {absent, A, B}^2, both key orders", "V4: sourceRoot x source over root pool x string pool"][which], 4 + which as u64, n, |idx, l| {
+        run.par_slice(["V1: source lists with null entries x root pool", "V2: name lists over {string, 42, -7, 1.5, 0, \"\", 2^64-1, 2^64}", "V3: debug_id x debugId in {absent, A, B}^2, both key orders", "V4: sourceRoot x source over root pool x string pool"][which], 4 + which as u64, n, |idx, l| {
             let k = idx & ((1 << 40) - 1);
             if let Some(v) = check_v(which, k) {
                 l.violation(idx, v);
